@@ -678,8 +678,10 @@ def run(tier, pid="C08"):
         for pr in r["problems"][:1]:
             if pid == "C09" and pr.get("kind") == "rejected":
                 continue                  # rejection of a legal request is C08's statement
-            chk.violation("interpolant", f"{pr['what']} ({r['logic']})", {"script": r["script"], "problem": pr},
-                          match_key=pr.get("match"))
+            key = pr.get("match")
+            if pid == "C09" and pr.get("kind") == "path" and ":interpolation-lra-algorithm 3" in r["script"]:
+                key = "lra-factor-path"
+            chk.violation("interpolant", f"{pr['what']} ({r['logic']})", {"script": r["script"], "problem": pr}, match_key=key)
     if pid == "C08":
         with mp.Pool(min(common.JOBS, 14)) as pool:
             lres = pool.map(lis_case, [(i, chk.seed, binary) for i in range(150 if tier == "quick" else 4000)], chunksize=4)
